@@ -17,7 +17,7 @@ Require Import Grits.Base Grits.Forms Grits.Expand Grits.TcTop Grits.Runtime.
 Require Import Grits.RuntimeFootprint Grits.proofs.RuntimeFacts Grits.proofs.Diamond Grits.proofs.Determinism Grits.proofs.AsyncSync Grits.proofs.RuntimeCheckFacts Grits.proofs.ForkJoin Grits.proofs.DeterminismExamples.
 Require Import Grits.Tc Grits.spec.RtTyping Grits.spec.Topo Grits.proofs.RtSafety Grits.proofs.RtInit Grits.proofs.RtTheorems Grits.proofs.DeterminismTyped Grits.proofs.TopoLin Grits.proofs.TopoStep Grits.proofs.TopoReach Grits.proofs.InitLinear.
 Require Import Grits.spec.SynOk Grits.proofs.RtTcSyn Grits.proofs.RtTheoremsTc Grits.proofs.DeterminismTc.
-Require Import Grits.proofs.LinBridge Grits.proofs.InitAccept Grits.proofs.DeterminismAccept Grits.proofs.TopoStepExt Grits.proofs.TopoFinish Grits.proofs.TopoDup.
+Require Import Grits.proofs.LinBridge Grits.proofs.InitAccept Grits.proofs.DeterminismAccept Grits.proofs.TopoStepExt Grits.proofs.TopoFinish Grits.proofs.TopoDup Grits.proofs.InvAll Grits.proofs.DeterminismAll.
 
 Theorem C03_step_is_move : forall md D F c ch, step md D F c ch = sres_of c (move_of md D F c ch).
 Proof. exact step_move. Qed.
@@ -540,6 +540,54 @@ Theorem C03_topo_dup_step : forall D F teq Δ c p pp md c',
   step md D F c (Run p) = SStep c' -> Topo c'.
 Proof. exact topo_dup_step. Qed.
 
+(* ---- stage 5: ALL accepted closed programs.  The invariant InvX (typed, Topo, affine bodies, namespace
+   hygiene, distinct provider channels, unreferenced providers of droppable forwards, droppable forwards
+   only as whole bodies) is preserved by every asynchronous step (all rules: cut, call, print, drop,
+   split, DUP, send incl. FWD and GC requests, every receipt), hence by the synchronous steps; it
+   holds initially for every accepted closed program whose source has no empty case and no droppable
+   forward (the parser never produces one).  So Topo along the runs is a theorem, and C03 holds for
+   parsed programs with exactly: parse ok, accepted, closed, all_src_b. *)
+Theorem C03_invx_step_async : forall D F teq, teq_laws D teq -> funs_typed D F teq -> funs_aff F -> nofd_funs F ->
+  forall c ch c', InvX D F teq c -> step Async D F c ch = SStep c' -> InvX D F teq c'.
+Proof. exact invx_step_async. Qed.
+
+Theorem C03_topo_runs_all : forall txt p p',
+  parse_string txt = POk p -> typecheck p = Accept p' -> in_fragment p' -> all_src_b p = true -> topo_runs p'.
+Proof. exact topo_runs_all. Qed.
+
+Theorem C03_determinism_all : forall txt p p' md pick1 pick2 f1 f2 t1,
+  parse_string txt = POk p -> typecheck p = Accept p' -> in_fragment p' -> all_src_b p = true -> is_np md = false ->
+  exec_run f1 pick1 md (p_types p') (p_funs p') (init_config p') = RQuiescent t1 -> (f1 <= f2)%nat ->
+  exists t2, exec_run f2 pick2 md (p_types p') (p_funs p') (init_config p') = RQuiescent t2 /\
+             cfg_equiv t2 t1 /\ labels t2 ≡ₚ labels t1.
+Proof. exact determinism_all. Qed.
+
+Theorem C03_async_sync_agree_all : forall txt p p' pick1 f1 t1,
+  parse_string txt = POk p -> typecheck p = Accept p' -> in_fragment p' -> all_src_b p = true ->
+  exec_run f1 pick1 Sync (p_types p') (p_funs p') (init_config p') = RQuiescent t1 ->
+  exists n, forall pick2 f2, (n < f2)%nat ->
+    exists t2, exec_run f2 pick2 Async (p_types p') (p_funs p') (init_config p') = RQuiescent t2 /\ labels t2 ≡ₚ labels t1.
+Proof. exact async_sync_agree_all. Qed.
+
+Theorem C03_all_accept_sound : forall txt, all_accept_text txt = true ->
+  exists p p', parse_string txt = POk p /\ typecheck p = Accept p' /\ topo_runs p' /\
+  forall md pick1 pick2 f1 f2 t1, is_np md = false ->
+    exec_run f1 pick1 md (p_types p') (p_funs p') (init_config p') = RQuiescent t1 -> (f1 <= f2)%nat ->
+    exists t2, exec_run f2 pick2 md (p_types p') (p_funs p') (init_config p') = RQuiescent t2 /\
+               cfg_equiv t2 t1 /\ labels t2 ≡ₚ labels t1.
+Proof. exact all_accept_sound. Qed.
+
+Example C03_example_all_accept :
+  all_accept_text example_split_text = true /\ all_accept_text example_drop_text = true /\ all_accept_text example_text = true.
+Proof. exact example_all_accept. Qed.
+
+Example C03_example_split_every_schedule :
+  exists p p', parse_string example_split_text = POk p /\ typecheck p = Accept p' /\
+  forall pick f, (300 <= f)%nat ->
+    exists t, exec_run f pick Async (p_types p') (p_funs p') (init_config p') = RQuiescent t /\
+              labels t ≡ₚ ["made"; "done"].
+Proof. exact example_split_every_schedule. Qed.
+
 Print Assumptions C03_init_linear_accept.
 Print Assumptions C03_topo_runs_core_accept.
 Print Assumptions C03_determinism_core_accept.
@@ -554,3 +602,10 @@ Print Assumptions C03_topo_send_gc.
 Print Assumptions C03_topo_gc_recv.
 Print Assumptions C03_topo_dropfwd_recv.
 Print Assumptions C03_topo_dup_step.
+Print Assumptions C03_invx_step_async.
+Print Assumptions C03_topo_runs_all.
+Print Assumptions C03_determinism_all.
+Print Assumptions C03_async_sync_agree_all.
+Print Assumptions C03_all_accept_sound.
+Print Assumptions C03_example_all_accept.
+Print Assumptions C03_example_split_every_schedule.
